@@ -8,6 +8,7 @@ package stores
 import (
 	"context"
 	"fmt"
+	"io"
 	"iter"
 	"net/http"
 	"net/http/httptest"
@@ -285,7 +286,13 @@ const (
 	Gate           // park before the operation until released
 	LostAck        // perform the operation, then report an error (the acknowledgement is lost)
 	FailCtx        // like Fail, but the error wraps context.DeadlineExceeded (a store-internal deadline, not the caller's context)
+	FailEOF        // like Fail, but the error wraps io.EOF (a connection that was dropped in the middle of a response)
 )
+
+func isFail(a Action) bool { return a == Fail || a == FailCtx || a == FailEOF }
+
+// ErrConnDropped is the error of FailEOF (what net/http reports when the peer closes the connection).
+var ErrConnDropped = fmt.Errorf("verif: Get \"http://store/events\": %w", io.EOF)
 
 // ErrStoreDeadline is the error of FailCtx.
 var ErrStoreDeadline = fmt.Errorf("verif: store-internal read deadline: %w", context.DeadlineExceeded)
@@ -293,6 +300,9 @@ var ErrStoreDeadline = fmt.Errorf("verif: store-internal read deadline: %w", con
 func injected(a Action) error {
 	if a == FailCtx {
 		return ErrStoreDeadline
+	}
+	if a == FailEOF {
+		return ErrConnDropped
 	}
 	return ErrInjected
 }
@@ -440,7 +450,7 @@ func (b *base) Read(ctx context.Context, from ebu.Offset, limit int) ([]*ebu.Sto
 	if dead {
 		return nil, from, ErrDead
 	}
-	if a == Fail || a == FailCtx {
+	if isFail(a) {
 		b.f.end(idx, "", injected(a), a)
 		return nil, from, injected(a)
 	}
@@ -459,7 +469,7 @@ func (s streamer) ReadStream(ctx context.Context, from ebu.Offset) iter.Seq2[*eb
 			yield(nil, ErrDead)
 			return
 		}
-		if a == Fail || a == FailCtx {
+		if isFail(a) {
 			s.f.end(idx, "", injected(a), a)
 			yield(nil, injected(a))
 			return
@@ -475,7 +485,7 @@ func (s streamer) ReadStream(ctx context.Context, from ebu.Offset) iter.Seq2[*eb
 				yield(nil, ErrDead)
 				return
 			}
-			if a == Fail || a == FailCtx {
+			if isFail(a) {
 				s.f.end(idx, "", injected(a), a)
 				yield(nil, injected(a))
 				return
